@@ -26,7 +26,7 @@ ID = "C20"
 TITLE = "on-disk netCDF access is equivalent to in-memory access"
 RULE = ("reads: product of (3 files, every variable 0-d to 3-d, index menu per dimension in label and position mode incl. tolerance, "
         "pairs / triples of indexed dimensions) x 10 spellings; writes: breadth-first search over on-disk assignment / append programs "
-        "(about 40 events) on a fixed-size and an unlimited-dimension file; multi-file: 2-3 files x secondary-axis variants x axis "
+        "(about 45 events, incl. DimArray pieces that carry other labels and metadata of their own; variable metadata compared) on a fixed-size and an unlimited-dimension file; multi-file: 2-3 files x secondary-axis variants x axis "
         "new/existing x keys x align x sort; non-trivial = the index selects something other than everything")
 ASSUMPTIONS = ["the vendored netCDF4 stand-in (mc/standin/netCDF4) is faithful to netCDF4-python's orthogonal indexing and unlimited-dimension growth",
                "in-memory take()/put() are the reference (their own correctness is C01-C03)"]
